@@ -18,6 +18,12 @@ func world(entry string, fam, nT, nV, conv, form, sv int64, mode ...int64) Shard
 	if m&4 != 0 {
 		extra += ", type-only entries of a list may share a type with different subtypes"
 	}
+	if m&8 != 0 {
+		extra += ", symbolically after a complete earlier call on the same target"
+	}
+	if m&16 != 0 {
+		extra += ", all options attached as construction defaults"
+	}
 	if fam >= 100 {
 		skel := []string{"skeleton 0: multi-input converter entered through one input, typed inputs with symbolic subtypes", "skeleton 1: diamond of two multi-input converters", "skeleton 2: two-output converter feeding two parameters, symbolic names/subtypes",
 			"skeleton 3: provider competing with direct values, symbolic names/subtypes", "skeleton 4: chain of three with a bidirectional pair", "skeleton 5: two named parameters converted from competing named inputs with subtypes", "skeleton 6: deep diamond (5 converters, named+subtyped intermediate, interface target)", "skeleton 7: two supplied converters of identical Go type and a hopeless named parameter"}
@@ -38,7 +44,7 @@ func registerResolver() {
 	register(&PropSpec{
 		ID: "C01", Pkg: "argmapper",
 		Quick: []Shard{
-			world("HarnessC01", 1, 1, 2, 0, 0, 0), world("HarnessC01", 2, 1, 2, 0, 1, 0), world("HarnessC01", 3, 1, 1, 0, 9, 0), world("HarnessC01", 0, 1, 1, 11, 9, 0), world("HarnessC01", 1, 1, 1, 11, 1, 0), world("HarnessC01", 2, 1, 1, 11, 3, 1), world("HarnessC01", 6, 1, 1, 12, 1, 0, 4), world("HarnessC01", 5, 1, 1, 2111, 0, 0), world("HarnessC01", 100, 0, 0, 0, 1, 0), world("HarnessC01", 101, 0, 0, 0, 9, 0, 2), world("HarnessC01", 102, 0, 0, 0, 1, 0), world("HarnessC01", 103, 0, 0, 0, 1, 0), world("HarnessC01", 104, 0, 0, 0, 0, 0), world("HarnessC01", 106, 0, 0, 0, 1, 0),
+			world("HarnessC01", 1, 1, 2, 0, 0, 0), world("HarnessC01", 2, 1, 2, 0, 1, 0), world("HarnessC01", 3, 1, 1, 0, 9, 0), world("HarnessC01", 0, 1, 1, 11, 9, 0), world("HarnessC01", 1, 1, 1, 11, 1, 0), world("HarnessC01", 2, 1, 1, 11, 3, 1), world("HarnessC01", 6, 1, 1, 12, 1, 0, 4), world("HarnessC01", 5, 1, 1, 2111, 0, 0), world("HarnessC01", 100, 0, 0, 0, 1, 0), world("HarnessC01", 101, 0, 0, 0, 9, 0, 2), world("HarnessC01", 102, 0, 0, 0, 1, 0), world("HarnessC01", 103, 0, 0, 0, 1, 0), world("HarnessC01", 104, 0, 0, 0, 0, 0), world("HarnessC01", 106, 0, 0, 0, 1, 0), world("HarnessC01", 1, 1, 1, 11, 3, 0, 8), world("HarnessC01", 3, 1, 1, 0, 9, 0, 24), world("HarnessC01", 0, 1, 1, 11, 9, 0, 16),
 		},
 		Thorough: []Shard{
 			world("HarnessC01", 1, 1, 2, 0, 0, 0), world("HarnessC01", 2, 1, 2, 0, 1, 0), world("HarnessC01", 3, 1, 1, 0, 9, 0), world("HarnessC01", 0, 1, 1, 11, 9, 0), world("HarnessC01", 1, 1, 1, 11, 1, 0), world("HarnessC01", 2, 1, 1, 11, 3, 1), world("HarnessC01", 6, 1, 1, 12, 1, 0, 4), world("HarnessC01", 5, 1, 1, 2111, 0, 0), world("HarnessC01", 100, 0, 0, 0, 1, 0), world("HarnessC01", 101, 0, 0, 0, 9, 0, 2), world("HarnessC01", 102, 0, 0, 0, 1, 0), world("HarnessC01", 103, 0, 0, 0, 1, 0), world("HarnessC01", 104, 0, 0, 0, 0, 0), world("HarnessC01", 106, 0, 0, 0, 1, 0), world("HarnessC01", 3, 1, 2, 0, 9, 0), world("HarnessC01", 3, 1, 1, 11, 3, 0), world("HarnessC01", 0, 1, 1, 1111, 1, 0), world("HarnessC01", 1, 2, 1, 11, 1, 0), world("HarnessC01", 0, 1, 2, 21, 1, 0), world("HarnessC01", 7, 1, 1, 11, 1, 0), world("HarnessC01", 6, 1, 2, 21, 1, 0, 4), world("HarnessC01", 5, 1, 2, 211111, 0, 0), world("HarnessC01", 5, 2, 1, 1111, 9, 0), world("HarnessC01", 100, 0, 0, 0, 9, 1), world("HarnessC01", 102, 0, 0, 0, 9, 0), world("HarnessC01", 103, 0, 0, 0, 9, 1), world("HarnessC01", 105, 0, 0, 0, 9, 0), world("HarnessC01", 1, 1, 1, 91, 1, 0), world("HarnessC01", 3, 1, 1, 91, 1, 0),
@@ -120,7 +126,7 @@ func registerResolver() {
 	register(&PropSpec{
 		ID: "C05", Pkg: "argmapper", SchedDependent: true,
 		Quick: []Shard{
-			world("HarnessC05", 0, 1, 1, 11, 1, 102), world("HarnessC05", 0, 1, 1, 1111, 1, 0), world("HarnessC05", 1, 1, 1, 1111, 1, 1), world("HarnessC05", 0, 1, 1, 1121, 1, 0), world("HarnessC05", 101, 0, 0, 0, 9, 0, 2), world("HarnessC05", 104, 0, 0, 0, 0, 100, 2), world("HarnessC05", 106, 0, 0, 0, 1, 0, 2), world("HarnessC05", 5, 1, 1, 2111, 0, 0, 2), world("HarnessC05", 0, 1, 1, 91, 9, 0, 2),
+			world("HarnessC05", 0, 1, 1, 11, 1, 102), world("HarnessC05", 0, 1, 1, 1111, 1, 0), world("HarnessC05", 1, 1, 1, 1111, 1, 1), world("HarnessC05", 0, 1, 1, 1121, 1, 0), world("HarnessC05", 101, 0, 0, 0, 9, 0, 2), world("HarnessC05", 104, 0, 0, 0, 0, 100, 2), world("HarnessC05", 106, 0, 0, 0, 1, 0, 2), world("HarnessC05", 5, 1, 1, 2111, 0, 0, 2), world("HarnessC05", 0, 1, 1, 91, 9, 0, 2), world("HarnessC05", 0, 1, 1, 11, 9, 0, 16),
 		},
 		Thorough: []Shard{
 			world("HarnessC05", 0, 1, 1, 11, 1, 102), world("HarnessC05", 0, 1, 1, 1111, 1, 0), world("HarnessC05", 1, 1, 1, 1111, 1, 1), world("HarnessC05", 0, 1, 1, 1121, 1, 0), world("HarnessC05", 101, 0, 0, 0, 9, 0, 2), world("HarnessC05", 104, 0, 0, 0, 0, 100, 2), world("HarnessC05", 106, 0, 0, 0, 1, 0, 2), world("HarnessC05", 5, 1, 1, 2111, 0, 0, 2), world("HarnessC05", 0, 1, 1, 91, 9, 0, 2), world("HarnessC05", 0, 1, 1, 1111, 1, 100), world("HarnessC05", 0, 1, 1, 111111, 1, 0), world("HarnessC05", 3, 1, 1, 1111, 0, 0), world("HarnessC05", 0, 2, 1, 1111, 1, 2), world("HarnessC05", 4, 1, 1, 1111, 1, 0), world("HarnessC05", 5, 1, 2, 211111, 0, 0), world("HarnessC05", 5, 1, 1, 111111, 0, 0, 2), world("HarnessC05", 100, 0, 0, 0, 9, 0, 2), world("HarnessC05", 102, 0, 0, 0, 9, 0, 2), world("HarnessC05", 105, 0, 0, 0, 9, 100),
@@ -148,7 +154,7 @@ func registerResolver() {
 	register(&PropSpec{
 		ID: "C13", Pkg: "argmapper",
 		Quick: []Shard{
-			world("HarnessC13", 1, 1, 2, 0, 0, 0), world("HarnessC13", 3, 2, 1, 0, 1, 0), world("HarnessC13", 0, 1, 1, 11, 9, 0), world("HarnessC13", 2, 1, 1, 11, 3, 1), world("HarnessC13", 1, 2, 1, 11, 1, 0), world("HarnessC13", 5, 2, 1, 2111, 0, 0), world("HarnessC13", 107, 0, 0, 0, 9, 0), world("HarnessC13", 103, 0, 0, 0, 1, 0), world("HarnessC13", 6, 2, 1, 0, 1, 0, 4), world("HarnessC13", 6, 2, 0, 11, 1, 0, 4),
+			world("HarnessC13", 1, 1, 2, 0, 0, 0), world("HarnessC13", 3, 2, 1, 0, 1, 0), world("HarnessC13", 0, 1, 1, 11, 9, 0), world("HarnessC13", 2, 1, 1, 11, 3, 1), world("HarnessC13", 1, 2, 1, 11, 1, 0), world("HarnessC13", 5, 2, 1, 2111, 0, 0), world("HarnessC13", 107, 0, 0, 0, 9, 0), world("HarnessC13", 103, 0, 0, 0, 1, 0), world("HarnessC13", 6, 2, 1, 0, 1, 0, 4), world("HarnessC13", 6, 2, 0, 11, 1, 0, 4), world("HarnessC13", 1, 2, 1, 0, 3, 0, 8), world("HarnessC13", 0, 2, 1, 11, 9, 0, 16),
 		},
 		Thorough: []Shard{
 			world("HarnessC13", 1, 1, 2, 0, 0, 0), world("HarnessC13", 3, 2, 1, 0, 1, 0), world("HarnessC13", 0, 1, 1, 11, 9, 0), world("HarnessC13", 2, 1, 1, 11, 3, 1), world("HarnessC13", 1, 2, 1, 11, 1, 0), world("HarnessC13", 5, 2, 1, 2111, 0, 0), world("HarnessC13", 3, 2, 2, 11, 1, 0), world("HarnessC13", 0, 2, 1, 1111, 1, 0), world("HarnessC13", 6, 2, 1, 12, 1, 0, 4), world("HarnessC13", 7, 2, 1, 11, 1, 0), world("HarnessC13", 1, 2, 1, 91, 1, 0),
